@@ -460,6 +460,27 @@ impl Simple {
     }
 }
 
+/// The harness' own resolution of path-like target names ("a/../b" -> "b", "./a" -> "a").
+pub fn resolve_name(name: &str) -> String {
+    let absolute = name.starts_with('/');
+    let mut out: Vec<&str> = Vec::new();
+    for seg in name.split('/') {
+        match seg {
+            "" | "." => {}
+            ".." => {
+                out.pop();
+            }
+            s => out.push(s),
+        }
+    }
+    let j = out.join("/");
+    if absolute {
+        format!("/{j}")
+    } else {
+        j
+    }
+}
+
 #[derive(Clone, Debug, Default)]
 pub struct Built {
     pub consistent: bool,
@@ -475,6 +496,8 @@ pub struct Built {
 
 impl Built {
     pub fn add_target_file(&mut self, consistent: bool, name: &str, content: &[u8]) {
+        // targets are published under their resolved name
+        let name = resolve_name(name);
         let f = if consistent { format!("{}.{}", sha256_hex(content), name) } else { name.to_string() };
         self.target_files.insert(f, content.to_vec());
     }
